@@ -216,6 +216,10 @@ class SimExecutor:
         return ctl.run_tasks(fn, tasks)
 
     def submit(self, fn, *a, **kw):
+        ctl = SimExecutor.current
+        if ctl is not None:
+            ctl.note_pool_use()
+            ctl.ctx.count('pool.submit.calls')
         f = cf.Future()
         try:
             f.set_result(fn(*a, **kw))
@@ -507,18 +511,28 @@ def run_case(ctx):
     nworkers = 1 + cfg.choice(16)
     ctl = Controller(ctx, 'parallel' if fam == 'parallel' else 'sim', nworkers)
     SimExecutor.current = ctl
-    atc.ThreadPoolExecutor = SimExecutor
+    # the seams are existing module-level names of the tree under test; a refactoring may remove one of them:
+    # then that part of the simulation is switched off (counted), the oracles stay on
+    if hasattr(atc, 'ThreadPoolExecutor'):
+        atc.ThreadPoolExecutor = SimExecutor
+    else:
+        ctx.count('seam.missing.ThreadPoolExecutor')
     global _REAL_CHUNKER
-    if _REAL_CHUNKER is None:
-        _REAL_CHUNKER = atc.chunk_tasks
-    real_chunker = _REAL_CHUNKER
-    atc.chunk_tasks = make_chunker(ctx) if fam == 'chunker' else real_chunker
+    has_chunker = hasattr(atc, 'chunk_tasks')
+    if has_chunker:
+        if _REAL_CHUNKER is None:
+            _REAL_CHUNKER = atc.chunk_tasks
+        real_chunker = _REAL_CHUNKER
+        atc.chunk_tasks = make_chunker(ctx) if fam == 'chunker' else real_chunker
+    else:
+        ctx.count('seam.missing.chunk_tasks')
     old_threads = pyiga.get_max_threads()
     try:
         _run(ctx, kind, fam, ctl)
     finally:
         pyiga.set_max_threads(old_threads)
-        atc.chunk_tasks = real_chunker
+        if has_chunker:
+            atc.chunk_tasks = real_chunker
 
 
 def _run(ctx, kind, fam, ctl):
